@@ -288,6 +288,16 @@ pub fn c20_gen(rng: &mut Rng, n: usize) -> Vec<Case> {
             p.stanzas.insert(pos, x.to_string());
             fault = "cross-stanza conflict".to_string();
         }
+        if fault.is_empty() {
+            // a stanza that matches nodes of DIFFERENT kinds, several of them starting at the same position (module / first
+            // statement / its expression ...), and fails only for some kinds: the error belongs to a LATER match of the stanza
+            let kinds = *rng.pick(&["expression_statement", "identifier|integer", "call|attribute|assignment", "block|pass_statement|return_statement"]);
+            let q = *rng.pick(&["_ @zany", "(_) @zany", "[(module) (expression_statement) (identifier) (call) (assignment) (function_definition) (block) (pass_statement) (return_statement)] @zany"]);
+            let x = format!("{} {{\n  scan (node-type @zany) {{\n    \"^({})$\" {{\n      let zz9 = (plus \"a\" 1)\n    }}\n  }}\n}}\n", q, kinds);
+            let pos = rng.below(p.stanzas.len() + 1);
+            p.stanzas.insert(pos, x);
+            fault = "kind-dependent fault in a multi-kind stanza".to_string();
+        }
         let src = gen_source(rng);
         let inp = ExecInput { dsl: p.text(), src, supplied: p.supplied.clone() };
         let lazy = rng.chance(50);
@@ -604,6 +614,11 @@ pub const C03_POOL: &[(&str, &[&str])] = &[
     ("(class_definition body: (block (_)* @args)) @c", &["args", "c"]),
     ("(call arguments: (argument_list (_)+ @y))", &["y"]),
     ("(binary_operator left: (_) @x right: (_) @y) @c", &["x", "y", "c"]),
+    // patterns that match a node AND its descendants (a statement and its only child cover the same bytes)
+    ("(_) @x", &["x"]),
+    ("_ @x", &["x"]),
+    ("[(block) (return_statement) (pass_statement) (expression_statement) (identifier) (call)] @x", &["x"]),
+    ("[(module) (expression_statement) (assignment) (attribute)] @x", &["x"]),
 ];
 
 fn both_case(stream: &str, inp: &ExecInput, extra_code: u32, mut tags: Vec<String>, nontrivial: bool, extra: serde_json::Value) -> Option<Case> {
@@ -748,6 +763,14 @@ pub fn c04_input_mode(rng: &mut Rng, ordered: bool) -> ExecInput {
     if rng.chance(70) { st.push("(function_definition name: (identifier) @name) @def {\n  node @def.scope\n  attr (@def.scope) kind = \"def\", name = (source-text @name)\n  let @def.k = (start-row @def)\n  let @name.owner = @def\n}\n".into()); }
     if rng.chance(40) { st.push("(class_definition) @cls {\n  node @cls.scope\n  attr (@cls.scope) kind = \"class\"\n}\n".into()); }
     // duplicate definition on the same node (error) — sometimes
+    // two inherited names read on ONE node that resolve at DIFFERENT ancestors (`top` only on the module, `depth` on the
+    // module and on every function definition)
+    let two_names = inherit && rng.chance(50);
+    if two_names {
+        pre.push("inherit .top".into()); pre.push("inherit .depth".into());
+        st.push("(module) @mt {\n  let @mt.top = \"m\"\n  let @mt.depth = 0\n}\n".into());
+        st.push("(function_definition) @ft {\n  let @ft.depth = (plus 1 (start-row @ft))\n}\n".into());
+    }
     // a definition whose scope expression itself reads a scoped variable (acyclic: `tag` depends on `owner`)
     if rng.chance(35) { st.push("(function_definition name: (identifier) @n2) {\n  let @n2.owner.tag = (source-text @n2)\n}\n".into()); }
     // class K7 (known finding): `owner` defined through a scope that reads `owner`
@@ -759,6 +782,12 @@ pub fn c04_input_mode(rng: &mut Rng, ordered: bool) -> ExecInput {
     if rng.chance(50) { st.push(if inherit { "(function_definition body: (block (_)* @stmts)) @d {\n  node r\n  attr (r) k = @d.k\n  for s in @stmts {\n    node e\n    edge e -> s.scope\n  }\n}\n".into() } else { "(function_definition body: (block (_)* @stmts)) @d {\n  node r\n  attr (r) k = @d.k\n  print @stmts\n}\n".to_string() }); }
     if rng.chance(40) { st.push("(function_definition name: (identifier) @n) {\n  node r\n  attr (r) krow = @n.owner.k\n}\n".into()); }
     if rng.chance(40) { st.push("(function_definition) @dt {\n  node r\n  attr (r) tag = @dt.tag\n}\n".into()); }
+    // the reading node itself (or a nearer ancestor) gets its own definition in a LATER stanza with the same query as a reader
+    if !ordered && inherit && rng.chance(35) {
+        st.push("(pass_statement) @ps {\n  node rr\n  edge rr -> @ps.scope\n  attr (rr) when = \"before-own\"\n}\n".into());
+        st.push("(pass_statement) @ps {\n  node @ps.scope\n  attr (@ps.scope) kind = \"own\"\n}\n".into());
+    }
+    if two_names { st.push(if rng.chance(50) { "[(pass_statement) (return_statement)] @st {\n  node q\n  attr (q) top = @st.top, depth = @st.depth\n}\n" } else { "[(pass_statement) (return_statement)] @st {\n  node q\n  attr (q) depth = @st.depth, top = @st.top\n  attr (q) again = @st.depth\n}\n" }.into()); }
     if rng.chance(10) { st.push("(call function: (identifier) @f) {\n  node r\n  attr (r) k = @f.k\n}\n".into()); }   // not inherited: undefined unless defined on this node
     if inherit && rng.chance(30) { st.push("(return_statement) @r {\n  node q\n  edge q -> @r.scope\n  attr (q -> @r.scope) via = \"return\"\n}\n".into()); }
     if st.is_empty() { st.push("(module) @m {\n  node @m.scope\n}\n".into()); }
